@@ -19,7 +19,7 @@ use crate::rules::require::{is_require_call, match_path_require_call, PathLocato
 use crate::rules::{
     Context, ContextBuilder, FlawlessRule, ReplaceReferencedTokens, RuleProcessResult,
 };
-use crate::utils::{self, Timer};
+use crate::utils::{self, Json5Value, Timer};
 use crate::{DarkluaError, Resources};
 
 use super::BundleOptions;
@@ -243,7 +243,7 @@ impl<'a, 'b, 'resources, PathLocatorImpl: PathLocator>
                     Ok(RequiredResource::Block(block))
                 }
                 "json" | "json5" => {
-                    transcode("json", path, json5::from_str::<serde_json::Value>, &content)
+                    transcode("json", path, json5::from_str::<Json5Value>, &content)
                 }
                 "yml" | "yaml" => transcode(
                     "yaml",
